@@ -21,6 +21,7 @@ EXPLANATION = (
     "separator and anchors quote the ident. R4: classes that redirect get_dir() also redirect ident "
     "under the same condition, and the registry is one module-level NameSelector. Whether two given "
     "entities collide is a run-time fact and is not decided."
+    ' R5: after NameSelector made the identifier unique nothing lossy is applied to it where page names, URLs and anchors are composed - the composing expressions are evaluated symbolically with a placeholder that any case folding or replacement would change.'
 )
 ASSUMPTIONS = ["str.lower and str.replace are the only name-merging string operations in use"]
 
